@@ -495,7 +495,9 @@ func run(r *mon.Run) {
 			mutSig(fmt.Sprintf("authority-1#%d", k), func(s *bundle.Signatures) { s.VouchedSubsets[k].Authority-- })
 			mutSig(fmt.Sprintf("authority-out-of-range#%d", k), func(s *bundle.Signatures) { s.VouchedSubsets[k].Authority = uint64(len(s.Authorities)) })
 			mutSig(fmt.Sprintf("authority-huge#%d", k), func(s *bundle.Signatures) { s.VouchedSubsets[k].Authority = 1 << 63 })
-			mutSig(fmt.Sprintf("sig-truncated#%d", k), func(s *bundle.Signatures) { s.VouchedSubsets[k].Sig = s.VouchedSubsets[k].Sig[:len(s.VouchedSubsets[k].Sig)-1] })
+			mutSig(fmt.Sprintf("sig-truncated#%d", k), func(s *bundle.Signatures) {
+				s.VouchedSubsets[k].Sig = s.VouchedSubsets[k].Sig[:len(s.VouchedSubsets[k].Sig)-1]
+			})
 			mutSig(fmt.Sprintf("sig-extended#%d", k), func(s *bundle.Signatures) { s.VouchedSubsets[k].Sig = append(s.VouchedSubsets[k].Sig, 0) })
 			mutSig(fmt.Sprintf("sig-empty#%d", k), func(s *bundle.Signatures) { s.VouchedSubsets[k].Sig = nil })
 			for b := 0; b < 6; b++ {
